@@ -22,7 +22,11 @@ from fractions import Fraction
 from .. import common as cm
 
 PROP = 'C06'
-THEOREMS = []          # filled in below (only proved names)
+THEOREMS = [
+    'C06.inv_run', 'C06.inv_stepWith', 'C06.inv_step', 'C06.inv_reachable', 'C06.inv_history',
+    'C06.inv_rectangular', 'C06.reachable_rectangular', 'C06.inv_atype_ge_one', 'C06.reachable_atype_ge_one',
+    'C06.inv_natypes_min',
+]
 PARTIAL = {}
 RULE = ''
 ASSUMPTIONS = []
